@@ -105,6 +105,12 @@ CHECKS = {
             "variable with the previous solution and with the unfixed problem built from fresh objects, then re-optimised.",
             "Trusted: mapping rows tell which steps a variable belongs to (checked by C07). Dates between grid points only.",
             "DESIGN.md 5 C15"),
+    "C16": ("property-based testing (Hypothesis): differential against the equivalent plain portfolio (scaled parameters / flattened sub-portfolio) with solution transfer",
+            "Exploration: scaled assets at a pinned scale are compared with the base asset whose volume/rate parameters are "
+            "multiplied by s/S minus the fixed cost; free scales against sampled pinned scales and the returned scale; structured "
+            "assets against the flat portfolio with internal nodes as ordinary nodes, solutions transferred both ways.",
+            "Trusted: list of scaled parameters in c16.scaled_base, transfer.py. LP bases only.",
+            "DESIGN.md 5 C16"),
     "C18": ("property-based testing (Hypothesis): supergradient inequality checked by re-optimising a perturbed problem with scipy-HiGHS",
             "Exploration: for generated LP portfolios a (node, step) and an injection d of either sign are drawn; the nodal "
             "right-hand side is perturbed and the problem re-solved independently; the reported nodal price must satisfy "
